@@ -18,6 +18,7 @@ fn main() {
     let mut seed: u64 = std::env::var("VERIF_SEED").ok().and_then(|s| s.trim().parse::<i64>().ok()).map(|v| v as u64).unwrap_or(0);
     let mut replay: Option<String> = None;
     let mut artifact: Option<String> = None;
+    let mut emit: Option<String> = None;
     let mut job: Option<String> = None;
     let mut verif = "/verif".to_string();
     let mut i = 1;
@@ -41,6 +42,10 @@ fn main() {
             }
             "--fuzz-artifact" => {
                 artifact = Some(args.get(i + 1).cloned().unwrap_or_else(|| usage()));
+                i += 2;
+            }
+            "--emit-corpus" => {
+                emit = Some(args.get(i + 1).cloned().unwrap_or_else(|| usage()));
                 i += 2;
             }
             "--strict" => {
@@ -69,6 +74,11 @@ fn main() {
         std::process::exit(2);
     };
     engine::start_watchdog(180);
+    if let Some(dir) = emit {
+        let n = engine::emit_corpus(&p, &dir, seed, 6, &verif);
+        println!("{n} corpus seeds written to {dir}");
+        std::process::exit(0);
+    }
     if let Some(path) = artifact {
         std::process::exit(engine::fuzz_artifact(&p, &path, &verif));
     }
